@@ -15,7 +15,14 @@ From Verif.C20 Require Export Model.
 Open Scope Z_scope.
 
 Inductive op := OExec | OTest | OMatch | OMatchAll | OReplace | OSearch | OSplit (lim : option Z)
-              | OSetLI (z : Z).      (* script assigns re.lastIndex := z between calls *)
+              | OSetLI (z : Z)       (* script assigns re.lastIndex := z between calls *)
+              (* argument coercion with side effects on the SAME RegExp object *)
+              | OSplitSE (lim : Z) (kind : N) (k : Z)  (* split(re, {valueOf(){ <effect>; return lim }}): effect 0 = re.compile(other),
+                                                          1 = re.lastIndex := k, 2 = re.exec overridden.  The splitter (pattern
+                                                          snapshot) is taken BEFORE the limit is coerced *)
+              | OReplaceLI (k : Z)                     (* the replacement function assigns re.lastIndex := k *)
+              | OExecLIObj (tst : bool) (v j : Z)      (* lastIndex is an object: valueOf sets re.lastIndex := j, returns v *)
+              | OExecArgLI (tst : bool) (k : Z).       (* the argument's toString assigns re.lastIndex := k *)
 Inductive ores := OK (r : res) | Err (e : N).
 
 Inductive tcase :=
@@ -77,6 +84,15 @@ Definition step_S (tab : list (option mres)) (fl : flags) (s : str) (li : Z) (o 
   | OSearch => search_generic f fl s li
   | OSplit lim => (split_generic f fl s lim, li)
   | OSetLI z => (RZ z, z)
+  | OSplitSE lim kind k =>
+      (split_generic f fl s (Some lim), if N.eqb kind 0 then 0 else if N.eqb kind 1 then k else li)
+  | OReplaceLI k =>
+      let '(r, li') := replace_generic f fl rep_br s li in
+      (r, match r with RS x => if str_eqb x s then li' else k | _ => li' end)
+  | OExecLIObj tst v j =>
+      let '(r, li') := (if tst then js_test f fl s v else js_exec f fl s v) in
+      (r, if fg fl || fy fl then li' else j)
+  | OExecArgLI tst k => if tst then js_test f fl s k else js_exec f fl s k
   end.
 (* I: the optimised drivers *)
 Definition step_I (e : engine) (tab : list (option mres)) (fl : flags) (s : str) (li : Z) (o : op) : res * Z :=
@@ -90,6 +106,15 @@ Definition step_I (e : engine) (tab : list (option mres)) (fl : flags) (s : str)
   | OSearch => search_fast f fl s li
   | OSplit lim => (split_fast f fl s e lim, li)
   | OSetLI z => (RZ z, z)
+  | OSplitSE lim kind k =>
+      (split_fast f fl s e (Some lim), if N.eqb kind 0 then 0 else if N.eqb kind 1 then k else li)
+  | OReplaceLI k =>
+      let '(r, li') := replace_fast f fl rep_br s e li in
+      (r, match r with RS x => if str_eqb x s then li' else k | _ => li' end)
+  | OExecLIObj tst v j =>
+      let '(r, li') := (if tst then js_test f fl s v else js_exec f fl s v) in
+      (r, if fg fl || fy fl then li' else j)
+  | OExecArgLI tst k => if tst then js_test f fl s k else js_exec f fl s k
   end.
 
 Fixpoint run_ops (step : Z -> op -> res * Z) (li : Z) (ops : list op) : list (ores * Z) :=
@@ -228,7 +253,11 @@ Definition pop : P op :=
   | 0%N => ret OExec | 1%N => ret OTest | 2%N => ret OMatch | 3%N => ret OMatchAll
   | 4%N => ret OReplace | 5%N => ret OSearch | 6%N => ret (OSplit None)
   | 7%N => z <- pZ ;; ret (OSplit (Some z))
-  | _ => z <- pZ ;; ret (OSetLI z)
+  | 8%N => z <- pZ ;; ret (OSetLI z)
+  | 9%N => l <- pZ ;; kd <- tok ;; k <- pZ ;; ret (OSplitSE l kd k)
+  | 10%N => k <- pZ ;; ret (OReplaceLI k)
+  | 11%N => b <- pbool ;; v <- pZ ;; j <- pZ ;; ret (OExecLIObj b v j)
+  | _ => b <- pbool ;; k <- pZ ;; ret (OExecArgLI b k)
   end.
 Definition pengine : P engine := t <- tok ;; ret (if N.eqb t 0 then RE2 else RX2).
 Definition pflags : P flags :=
